@@ -43,6 +43,9 @@ def write_ws(spec, ws, remote=False, extra_toml=""):
             cmds.append("echo const > t%d.b.out" % i); outs.append("t%d.b.out" % i)
         if kind in ("dir", "mixed"):
             cmds.append("rm -rf d%d && mkdir -p d%d/sub && cat %s > d%d/a.txt && echo const > d%d/sub/b.txt && : > d%d/empty" % (i, i, src, i, i, i))
+            if t.get("wide"):
+                # many small files with distinct contents (more than any plausible bound on concurrent uploads)
+                cmds.append("mkdir -p d%d/w && for k in $(seq 1 %d); do echo wide-%d-$k > d%d/w/f$k; done" % (i, t["wide"], i, i))
             outs.append("dir::d%d" % i)
         cmds.append("echo t%d >> ../.trace" % i)
         targets.append({"name": "t%d" % i, "inputs": ["in%d.txt" % i], "dependencies": [":t%d" % j for j in t["deps"]],
